@@ -42,7 +42,13 @@ func (r *Request) Broker(cluster protocol.Cluster) (protocol.Broker, error) {
 
 	for _, p := range cluster.Topics[topic].Partitions {
 		if p.ID == partition {
-			return cluster.Brokers[p.Leader], nil
+			leader, ok := cluster.Brokers[p.Leader]
+			if !ok {
+				// No leader (-1 during an election) or a leader that is not
+				// in the broker list: the zero value would name broker 0.
+				return protocol.Broker{ID: -1}, protocol.NewErrNoLeader(topic, partition)
+			}
+			return leader, nil
 		}
 	}
 
